@@ -30,6 +30,7 @@ type c03Case struct {
 	Probes  [][]byte    `json:"probes"`
 	Bounds  [][2][]byte `json:"bounds"`
 	// observations
+	IdxPay   [][]byte  `json:"-"`
 	Index    []byte    `json:"index"`
 	Data     []byte    `json:"data"`
 	Meta     metaOut   `json:"meta"`
@@ -68,6 +69,7 @@ func (c *c03Case) Exec() {
 		return
 	}
 	c.Index, c.Data = readFileOr(dir, sstables.IndexFileName), readFileOr(dir, sstables.DataFileName)
+	c.IdxPay = indexEntries(dir)
 	r, err := sstables.NewSSTableReader(sstables.ReadBasePath(dir), sstables.ReadIndexLoader(loaderFor(c.Loader, c.RBuf)), sstables.ReadBufferSizeBytes(c.RBuf))
 	if err != nil {
 		c.OpenErr = classifyErr(err)
@@ -176,7 +178,31 @@ func (c *c03Case) Oracle() (bool, string) {
 	return true, ""
 }
 
-func (c *c03Case) Sx() string { return "" } // filled in once the table model exists (sst model)
+func (c *c03Case) Sx() string {
+	if c.Fatal != "" || c.OpenErr != "" {
+		return ""
+	}
+	var gets, froms, ranges []string
+	for i, p := range c.Probes {
+		g := c.Gets[i]
+		if g.CErr != "" {
+			return ""
+		}
+		gets = append(gets, sxL(sxB(p), sxBool(g.Contains), sxRes(sxOBn(g.V, g.Nil), g.Err)))
+		froms = append(froms, sxL(sxB(p), c.Froms[i].sx()))
+	}
+	for i, b := range c.Bounds {
+		r := c.Ranges[i]
+		if len(r.Err) > 5 && r.Err[:5] == "Open:" {
+			ranges = append(ranges, sxL(sxB(b[0]), sxB(b[1]), "()"))
+		} else {
+			ranges = append(ranges, sxL(sxB(b[0]), sxB(b[1]), sxL(r.sx())))
+		}
+	}
+	return sxL(sxI(c.Opts.IndexComp), sxI(c.Opts.DataComp), compTable(c.Opts.IndexComp, c.IdxPay), compTable(c.Opts.DataComp, valuesOf(c.KVs)),
+		sxTblKVs(c.KVs), sxLoader(c.Loader, c.SeekLen), sxB(c.Index), sxB(c.Data), sxMeta(c.Meta),
+		sxList(gets), c.All.sx(), sxList(froms), sxList(ranges))
+}
 
 func (c *c03Case) Nontrivial() bool {
 	abs, outside := false, false
